@@ -412,9 +412,11 @@ func init() {
 	Register(&CheckSpec{
 		Prop: "C18", World: "atomic",
 		Gen: GenAtomicProgram, Run: RunAtomicProgram,
-		NonTrivial: func(p *Program, r *Result) bool { return r.Probes["atomic.reload.ok"] > 0 && r.Probes["atomic.probe.old_new_differ"] > 0 },
-		Rule:       "successful reload between old/new configurations that differ in what a request reads in separate steps (auth on/off, route removed/added/moved, match, limits), interleaved with in-flight requests at every statement of reloadConfig and ingress ServeHTTP (PRNG-chosen schedule); twin oracle: outcome under the old configuration (quiescent node before) or under the new one (quiescent node after); non-trivial = reload applied and at least one probe distinguishes old from new; distinct = distinct interleavings",
-		RealStub:   sysRealStub,
-		Quick:      800, Thorough: 40000,
+		NonTrivial: func(p *Program, r *Result) bool {
+			return r.Probes["atomic.reload.ok"] > 0 && r.Probes["atomic.probe.old_new_differ"] > 0
+		},
+		Rule:     "successful reload between old/new configurations that differ in what a request reads in separate steps (auth on/off, route removed/added/moved, match, limits), interleaved with in-flight requests at every statement of reloadConfig and ingress ServeHTTP (PRNG-chosen schedule); twin oracle: outcome under the old configuration (quiescent node before) or under the new one (quiescent node after); non-trivial = reload applied and at least one probe distinguishes old from new; distinct = distinct interleavings",
+		RealStub: sysRealStub,
+		Quick:    800, Thorough: 40000,
 	})
 }
